@@ -401,36 +401,119 @@ impl io::Write for FailAt {
     }
 }
 
-/// returns an oracle failure description
-fn run_fmt(n: usize, fail: &[usize]) -> Option<String> {
-    let out: Arc<Mutex<Vec<u8>>> = Default::default();
-    let w = FailAt { fail: fail.to_vec(), call: 0, out: out.clone() };
-    let stream = Emf::no_validations("Ns".into(), vec![vec![]]).output_to(w);
-    let r = catch(move || {
-        let sink = FlushImmediately::<IdEntry, _>::new(stream);
-        for id in 0..n as u64 {
-            sink.append(IdEntry(id));
+#[derive(Default)]
+struct FailState {
+    /// write calls (by index) that fail hard / return Ok(0)
+    hard: Vec<usize>,
+    zero: Vec<usize>,
+    call: usize,
+    out: Vec<u8>,
+}
+
+#[derive(Clone)]
+struct SharedFail(Arc<Mutex<FailState>>);
+
+impl SharedFail {
+    fn respond(&self, bufs: &[&[u8]]) -> io::Result<usize> {
+        let mut st = self.0.lock().unwrap();
+        let k = st.call;
+        st.call += 1;
+        if st.hard.contains(&k) {
+            return Err(io::Error::new(io::ErrorKind::BrokenPipe, "scripted"));
         }
-    });
-    if let Err(p) = r {
-        return Some(format!("panicked: {p}"));
+        if st.zero.contains(&k) {
+            return Ok(0);
+        }
+        let mut n = 0;
+        for b in bufs {
+            st.out.extend_from_slice(b);
+            n += b.len();
+        }
+        Ok(n)
     }
-    // every entry is one line = one write_vectored call; call k belongs to entry k
+}
+
+impl io::Write for SharedFail {
+    fn write(&mut self, buf: &[u8]) -> io::Result<usize> {
+        self.respond(&[buf])
+    }
+    fn write_vectored(&mut self, bufs: &[io::IoSlice<'_>]) -> io::Result<usize> {
+        let v: Vec<&[u8]> = bufs.iter().map(|b| &**b).collect();
+        self.respond(&v)
+    }
+    fn flush(&mut self) -> io::Result<()> {
+        Ok(())
+    }
+}
+
+struct Mw(SharedFail);
+impl<'a> tracing_subscriber::fmt::MakeWriter<'a> for Mw {
+    type Writer = SharedFail;
+    fn make_writer(&'a self) -> SharedFail {
+        self.0.clone()
+    }
+}
+
+/// `fmt` kind. `path` 0: `Emf.output_to(writer)`, 1: `Emf.output_to_makewriter(make_writer)`;
+/// `direct`: call `EntryIoStream::next` directly (results observed) instead of going through FlushImmediately.
+/// Every entry is one line = one write call (the writer accepts everything it is offered unless it fails),
+/// so write call k belongs to entry k. Returns an oracle failure description.
+fn run_fmt(n: usize, hard: &[usize], zero: &[usize], path: usize, direct: bool) -> Option<String> {
+    let st = SharedFail(Arc::new(Mutex::new(FailState { hard: hard.to_vec(), zero: zero.to_vec(), ..Default::default() })));
+    fn drive<S: EntryIoStream + Send + Sync + 'static>(stream: S, n: usize, direct: bool) -> Result<String, String> {
+        catch(move || {
+            let mut results = String::new();
+            if direct {
+                let mut s = stream;
+                for id in 0..n as u64 {
+                    results.push(match s.next(&IdEntry(id)) {
+                        Ok(()) => 'o',
+                        Err(IoStreamError::Validation(_)) => 'v',
+                        Err(IoStreamError::Io(_)) => 'i',
+                    });
+                }
+            } else {
+                let sink = FlushImmediately::<IdEntry, _>::new(stream);
+                for id in 0..n as u64 {
+                    sink.append(IdEntry(id));
+                }
+            }
+            results
+        })
+    }
+    let r = if path == 0 {
+        drive(Emf::no_validations("Ns".into(), vec![vec![]]).output_to(st.clone()), n, direct)
+    } else {
+        drive(Emf::no_validations("Ns".into(), vec![vec![]]).output_to_makewriter(Mw(st.clone())), n, direct)
+    };
+    let results = match r {
+        Ok(r) => r,
+        Err(p) => return Some(format!("panicked: {p}")),
+    };
+    let failed = |id: usize| hard.contains(&id) || zero.contains(&id);
     let mut want = Vec::new();
     for id in 0..n as u64 {
-        if fail.contains(&(id as usize)) {
+        if failed(id as usize) {
             continue;
         }
         let mut f = Emf::no_validations("Ns".into(), vec![vec![]]);
         use metrique_writer_core::format::Format;
         f.format(&IdEntry(id), &mut want).unwrap();
     }
-    let got = out.lock().unwrap().clone();
+    let got = st.0.lock().unwrap().out.clone();
     if got != want {
         return Some(format!(
             "writer received {:?}, expected the complete records of exactly the entries whose write did not fail",
             String::from_utf8_lossy(&got[..got.len().min(200)])
         ));
+    }
+    if direct {
+        let want_res: String = (0..n).map(|id| if failed(id) { 'i' } else { 'o' }).collect();
+        if results != want_res {
+            return Some(format!(
+                "next() results {results} but the writer failed exactly for the entries marked i in {want_res}: a write error must be surfaced as an I/O error for that entry only"
+            ));
+        }
     }
     None
 }
@@ -541,6 +624,19 @@ fn run_fmtseq(entries: &[GenEntry], via_queue: bool) -> (usize, Option<String>) 
     (rejected, None)
 }
 
+fn parse_fmt_case(line: &str) -> Option<(usize, Vec<usize>, Vec<usize>, usize, bool)> {
+    // "fmt n=3 hard=[0, 2] zero=[] path=1 direct=1"
+    let rest = line.strip_prefix("fmt ")?;
+    let get = |key: &str| -> Option<String> {
+        let i = rest.find(&format!("{key}="))? + key.len() + 1;
+        let tail = &rest[i..];
+        let end = if tail.starts_with('[') { tail.find(']')? + 1 } else { tail.find(' ').unwrap_or(tail.len()) };
+        Some(tail[..end].to_string())
+    };
+    let list = |s: String| -> Vec<usize> { s.trim_matches(|c| c == '[' || c == ']').split(',').filter_map(|x| x.trim().parse().ok()).collect() };
+    Some((get("n")?.parse().ok()?, list(get("hard")?), list(get("zero")?), get("path")?.parse().ok()?, get("direct")? == "1"))
+}
+
 fn gen_case(rng: &mut Rng, kinds: &[&str]) -> Case {
     let shape = rng.below(SHAPES.len() as u64) as usize;
     let n = SHAPES[shape].1;
@@ -627,17 +723,40 @@ fn main() {
         }
         None => rep.driver_available = false,
     }
-    // fmt kind (oracle only)
-    if args.replay.is_none() {
-        let nf = if args.thorough() { 50_000 } else { 3_000 };
-        for _ in 0..nf {
-            let n = rng.range(1, 8) as usize;
-            let fail: Vec<usize> = (0..n).filter(|_| rng.chance(1, 3)).collect();
-            let enc = format!("fmt n={n} fail={fail:?}");
-            rep.case(&enc, !fail.is_empty());
-            rep.bump("kind:fmt");
-            if let Some(what) = run_fmt(n, &fail) {
-                rep.oracle_failure("sinks:fmt", &enc, "", &what);
+    // fmt kind (oracle only): both formatted-stream paths, through a sink and directly
+    if args.replay.is_none() || args.replay_case().map(|c| c.starts_with("fmt ")).unwrap_or(false) {
+        let mut fmt_cases: Vec<(usize, Vec<usize>, Vec<usize>, usize, bool)> = vec![];
+        if let Some(line) = args.replay_case() {
+            if let Some(c) = parse_fmt_case(&line) {
+                fmt_cases.push(c);
+            }
+        } else {
+            for l in args.corpus_cases() {
+                if let Some(c) = parse_fmt_case(&l) {
+                    fmt_cases.push(c);
+                }
+            }
+            let nf = if args.thorough() { 50_000 } else { 3_000 };
+            for i in 0..nf {
+                let n = rng.range(1, 8) as usize;
+                let mut hard = vec![];
+                let mut zero = vec![];
+                for k in 0..n {
+                    match rng.below(6) {
+                        0 => hard.push(k),
+                        1 => zero.push(k),
+                        _ => {}
+                    }
+                }
+                fmt_cases.push((n, hard, zero, i % 2, (i / 2) % 2 == 0));
+            }
+        }
+        for (n, hard, zero, path, direct) in fmt_cases {
+            let enc = format!("fmt n={n} hard={hard:?} zero={zero:?} path={path} direct={}", direct as u8);
+            rep.case(&enc, !hard.is_empty() || !zero.is_empty());
+            rep.bump(if path == 0 { "kind:fmt:output_to" } else { "kind:fmt:output_to_makewriter" });
+            if let Some(what) = run_fmt(n, &hard, &zero, path, direct) {
+                rep.oracle_failure(if path == 0 { "sinks:fmt" } else { "sinks:fmt-makewriter" }, &enc, "", &what);
             }
         }
     }
